@@ -273,13 +273,17 @@ class mapper(object):
             raise ValueError("memory location slc is not supported")
         elif loc._is_ptr:
             r = v
-            oldr = self.__map.get(loc, None)
-            if oldr is not None and oldr.size > r.size:
-                r = composer([r, oldr[r.size : oldr.size]])
             if k._is_mem:
                 endian = k.endian
             else:
                 endian = 1
+            oldr = self.__map.get(loc, None)
+            if oldr is not None and oldr.size > r.size:
+                # keep the entry as wide as before: its upper part is what
+                # the memory holds there now (an other store may have
+                # overwritten what was recorded with the previous store at loc)
+                cur = self._Mem_read(loc, oldr.length, endian)
+                r = composer([r, cur[r.size : oldr.size]])
             self._Mem_write(loc, r, endian)
             if conf.Cas.memtrace or not conf.Cas.noaliasing:
                 # if we assume that aliasing may exists, we
